@@ -2,7 +2,7 @@
    on arbitrary type strings, ids of way nodes and relation members, Counts, and the id lists
    of Elements / Objects.  All functions mentioned are the generated ones (GenIds) or the
    dispatchers / loop models of Model.v over them. *)
-From Coq Require Import ZArith List String Ascii Bool Lia.
+From Coq Require Import ZArith List String Ascii Bool Lia Sorted Permutation.
 From Verif Require Import Base.Int64 C10.Model C10.GenSem C10.Proofs.
 From VerifGen Require Import GenIds.
 Import ListNotations.
@@ -62,7 +62,7 @@ Qed.
    subset test  id & mask != mask .  relationMask = nodeMask | wayMask, so a relation id passed
    the node test and the way test: a relation decoded as a node. *)
 Definition old_guard_passes (mask id : Z) : bool := Z.land id mask =? mask.
-Lemma old_subset_guard_refuted :
+Lemma old_guard_witness :
   exists r, old_guard_passes c_nodeMask (pack KRelation r 0) = true
             /\ old_guard_passes c_wayMask (pack KRelation r 0) = true
             /\ ObjectID_Ref (pack KRelation r 0) = r.
@@ -348,4 +348,20 @@ Proof.
   cbn [map] in E. injection E as E0 E1.
   inversion C1; inversion C2; subst.
   f_equal; [apply pack_inj; assumption|apply IH; assumption].
+Qed.
+
+(* ---------- the sort clause, composed ---------- *)
+
+Lemma sorted_element_ids l out :
+  Forall in_range3 l -> Forall (fun t => is_element (fst (fst t)) = true) l ->
+  Permutation (elements_element_ids l) out -> StronglySorted Z.le out ->
+  exists l', Permutation l l' /\ out = map pack3 l' /\ StronglySorted lex_le l'.
+Proof.
+  intros H1 H2 HP HS. rewrite (elements_element_ids_spec l H1 H2) in HP.
+  apply Permutation_sym in HP.
+  destruct (Permutation_map_inv pack3 l HP) as [l' [E HP']].
+  exists l'. split; [exact HP'|]. split; [exact E|].
+  apply sorted_pack_lex.
+  - eapply Permutation_Forall; [exact HP'|exact H1].
+  - rewrite <- E. exact HS.
 Qed.
